@@ -461,6 +461,7 @@ func (in *interp) resolve(path []string, env []binding) resolved {
 		return resolved{st: stError, why: r.why, path: path}
 	}
 	// absent key or field
+	in.trace("resolve:absent")
 	if in.opt.Unknown != nil {
 		return resolved{st: stFound, val: in.opt.Unknown, path: path, why: "unknown-value"}
 	}
